@@ -60,8 +60,24 @@ def R1_relaxation(ctx):
     ctx.key = key
 
 
+def two_way(F, t):
+    """`target.map_or(Ok(ZERO), |t| ..)` / `match target { None => ZERO, Some(t) => .. }` / a local closure doing either: one reading —
+    adaptor closures are applied (norm_adaptors) and `default(value, fallback)` is shown as the two alternatives phi{value | fallback}"""
+    n = norm_adaptors(F, t)
+    def pay(y):
+        y = nosite(deep_strip(y))
+        # (inside a closure that returns Result the alternatives are Ok(value): the caller's `?` takes the payload)
+        return agg_payload(y) if y[0] == "agg" and y[1] == "std::result::Result" and y[2] == "Ok" else y
+    return rewrite(n, lambda x: mk_phi([pay(x[1]), pay(x[2])]) if x[0] == "default" and len(x) == 3 else None)
+
+
 def heuristic_ok(F, h, vertex, a):
     """h == phi{ZERO (no target), Cost::new(estimate(si, vertex, target, _) * weight_factor.unwrap_or(ONE))}"""
+    if h[0] != "phi":
+        h2 = nosite(deep_strip(two_way(F, h)))
+        cands = [x for x in subterms(h2) if x[0] == "phi" and ZERO in x[1]]
+        if cands:
+            h = cands[0]
     alts = set(h[1]) if h[0] == "phi" else {h}
     if ZERO not in alts or len(alts) != 2:
         return False, "alternatives %s" % [short(x)[:60] for x in alts]
@@ -110,6 +126,11 @@ def R2_queue(ctx):
     if okf:
         inner = f[2][0]
         hs = [s for s in subterms(inner) if s[0] == "phi" and ZERO in s[1]]
+        if not hs:
+            inner2 = nosite(deep_strip(two_way(F, inner)))
+            hs = [s for s in subterms(inner2) if s[0] == "phi" and ZERO in s[1]]
+            if hs:
+                inner = inner2
         A_ = Arith(F)
         A_.items_numeric = False
         A_.symbols = {tent: "g"}
